@@ -100,9 +100,15 @@ impl<Tz: TimeZone> Clone for DateTime<Tz> where <Tz as TimeZone>::Offset: Clone 
             if _re.search(r'fn (timestamp_opt|timestamp_millis_opt|timestamp_micros|timestamp_nanos)\s*\(', _blk):
                 raise _AL('an impl overrides a provided TimeZone::timestamp_* method in ' + _f)
     u.const(FDT, 'UNIX_EPOCH_DAY')
+    u.raw('''
+use core::time::Duration;
+#[derive(Debug)] struct OutOfRangeError(());
+pub uninterp spec fn dur_secs(d: core::time::Duration) -> u64;
+pub uninterp spec fn dur_nanos(d: core::time::Duration) -> u32;
+''')
     u.const(FTD, 'NANOS_PER_SEC')
     u.raw('impl TimeDelta {')
-    for n in ['try_seconds', 'checked_add', 'checked_sub', 'try_days', 'num_days', 'num_seconds', 'subsec_nanos', 'new', 'neg', 'seconds', 'days']:
+    for n in ['try_seconds', 'checked_add', 'checked_sub', 'try_days', 'num_days', 'num_seconds', 'subsec_nanos', 'new', 'neg', 'seconds', 'days', 'from_std']:
         u.stub(FTD, n, 'impl TimeDelta {', cid='TimeDelta::' + n)
     u.raw('}\nimpl NaiveDate {')
     # every NaiveDate function of the contract table that date-time code may call (so that an edited body calling another
@@ -138,6 +144,8 @@ impl<Tz: TimeZone> Clone for DateTime<Tz> where <Tz as TimeZone>::Offset: Clone 
         u.prove(FN, n, IMPL, cid='NaiveDateTime::' + n, subst=sent)
     u.prove(FN, 'add', 'impl Add<TimeDelta> for NaiveDateTime {', cid='NaiveDateTime::Add__add', rename='Add__add')
     u.prove(FN, 'sub', 'impl Sub<TimeDelta> for NaiveDateTime {', cid='NaiveDateTime::Sub__sub', rename='Sub__sub')
+    u.prove(FN, 'add', 'impl Add<Duration> for NaiveDateTime {', cid='NaiveDateTime::Add_Duration__add', rename='Add_Duration__add')
+    u.prove(FN, 'sub', 'impl Sub<Duration> for NaiveDateTime {', cid='NaiveDateTime::Sub_Duration__sub', rename='Sub_Duration__sub')
     u.prove(FN, 'add_assign', 'impl AddAssign<TimeDelta> for NaiveDateTime {', cid='NaiveDateTime::AddAssign__add_assign', rename='AddAssign__add_assign',
             subst=[('self.add(rhs)', 'self.Add__add(rhs)', 'R6 trait call re-pointed')])
     u.prove(FN, 'sub_assign', 'impl SubAssign<TimeDelta> for NaiveDateTime {', cid='NaiveDateTime::SubAssign__sub_assign', rename='SubAssign__sub_assign',
@@ -163,6 +171,12 @@ impl<Tz: TimeZone> Clone for DateTime<Tz> where <Tz as TimeZone>::Offset: Clone 
     u.prove(FDT, 'sub_assign', 'impl<Tz: TimeZone> SubAssign<TimeDelta> for DateTime<Tz> {', cid='DateTime::SubAssign__sub_assign', rename='SubAssign__sub_assign')
     u.prove(FDT, 'add', 'impl<Tz: TimeZone> Add<TimeDelta> for DateTime<Tz> {', cid='DateTime::Add__add', rename='Add__add')
     u.prove(FDT, 'sub', 'impl<Tz: TimeZone> Sub<TimeDelta> for DateTime<Tz> {', cid='DateTime::Sub__sub', rename='Sub__sub')
+    u.prove(FDT, 'add', 'impl<Tz: TimeZone> Add<Duration> for DateTime<Tz> {', cid='DateTime::Add_Duration__add', rename='Add_Duration__add')
+    u.prove(FDT, 'sub', 'impl<Tz: TimeZone> Sub<Duration> for DateTime<Tz> {', cid='DateTime::Sub_Duration__sub', rename='Sub_Duration__sub')
+    u.prove(FDT, 'add_assign', 'impl<Tz: TimeZone> AddAssign<Duration> for DateTime<Tz> {', cid='DateTime::AddAssign_Duration__add_assign', rename='AddAssign_Duration__add_assign',
+            subst=[('*self += rhs;', 'self.AddAssign__add_assign(rhs);', 'R6 compound operator re-pointed to the proved AddAssign<TimeDelta> body')])
+    u.prove(FDT, 'sub_assign', 'impl<Tz: TimeZone> SubAssign<Duration> for DateTime<Tz> {', cid='DateTime::SubAssign_Duration__sub_assign', rename='SubAssign_Duration__sub_assign',
+            subst=[('*self -= rhs;', 'self.SubAssign__sub_assign(rhs);', 'R6 compound operator re-pointed to the proved SubAssign<TimeDelta> body')])
     u.raw('}')
     u.prove('src/offset/mod.rs', 'from_utc_datetime', 'pub trait TimeZone: Sized + Clone {', cid='TimeZone::from_utc_datetime', rename='TimeZone__from_utc_datetime',
             replace_sig='fn TimeZone__from_utc_datetime<Tz: TimeZone>(this: &Tz, utc: &NaiveDateTime) -> DateTime<Tz>',
